@@ -12,6 +12,7 @@ Grounding of the assertions (all in /repo/puan/ndarray/__init__.py docstrings + 
   * variables / index of the result describe its columns / rows (kept ones, in order).
 Incomplete reports (nothing flagged, fix-point loop stopping early) are never a violation.
 """
+from vf import build
 from vf.core import Part, Violation, call
 from vf.props import polycommon as pc
 
@@ -239,9 +240,37 @@ def check(case, ev):
     ev.case(case, bool(feasible) and (n_fc > 0 or n_fr > 0), cl)
 
 
+def check_sparse(case, ev):
+    """large sparse systems with pairwise disjoint rows: the exact per-column value ranges are known row by row"""
+    import math
+    poly = call(build.polyhedron, case, what="constructing the polyhedron")
+    bounds = [(v[1], v[2]) for v in case["vars"]]
+    truth = pc.block_truth(case)
+    rr = [bool(x) for x in pc.as_list(call(poly.reducable_rows, what="reducable_rows"), "reducable_rows()", (len(case["m"]),))]
+    for i, row in enumerate(case["m"]):
+        if rr[i] and pc.row_min(row[1:], bounds) < row[0]:
+            raise Violation(f"reducable_rows(): row {i} {row[0]} <= {[(j, c) for j, c in enumerate(row[1:]) if c]} is reported reducible but "
+                            f"its minimum over the box is {pc.row_min(row[1:], bounds)}")
+    ca = pc.forced_list(pc.as_list(call(poly.reducable_columns_approx, what="reducable_columns_approx"), "reducable_columns_approx()", (len(bounds),)))
+    fr_v, fc_v = pc.bounded(poly.reducable_rows_and_columns, what="reducable_rows_and_columns")
+    fc = pc.forced_list(pc.as_list(fc_v, "reducable_rows_and_columns()[1]", (len(bounds),)))
+    n_forced = 0
+    if truth is not None:
+        for name, vec in (("reducable_columns_approx", ca), ("reducable_rows_and_columns", fc)):
+            for j, v in enumerate(vec):
+                if v is not None:
+                    n_forced += 1
+                    if truth[j] != (v, v):
+                        raise Violation(f"{name}: column {j} is reported forced to {v} but takes the values {truth[j]} in the solution set; "
+                                        f"row {[r for r in case['m'] if r[1 + j]]} bounds {bounds[j]}")
+    ev.case(case, n_forced > 0 or any(rr), ["sparse_large", "feasible" if truth is not None else "infeasible"])
+
+
 def parts(tier):
     g = 2048 if tier == "quick" else 20000
     return [
+        Part("chains", strategy=lambda t: pc.chain_case(guard=g), check=check, quick=(2, 400), thorough=(4, 5000)),
+        Part("sparse_large", strategy=lambda t: pc.sparse_block_case(), check=check_sparse, quick=(2, 120), thorough=(4, 1500)),
         Part("small", strategy=lambda t: pc.system_case(profile="small", guard=g), check=check,
              quick=(3, 1200), thorough=(6, 14000)),
         Part("wide", strategy=lambda t: pc.system_case(profile="wide", guard=g), check=check,
